@@ -406,8 +406,12 @@ class Fn:
                 t = self._field(t, e['n'], e['i'])
             elif k == 'downcast':
                 t = ('downcast', t, e['n'])
-            elif k in ('index', 'cindex', 'subslice'):
-                t = ('index', t)
+            elif k == 'index':
+                t = ('index', t, e['l'])
+            elif k == 'cindex':
+                t = ('cindex', t, e['o'], e['from_end'])
+            elif k == 'subslice':
+                t = ('subslice', t, e['from'], e['to'], e['from_end'])
             else:
                 t = ('unknown', 'proj')
         return t
@@ -528,7 +532,7 @@ def walk(t):
     """all sub-terms, pre-order"""
     yield t
     k = t[0]
-    if k in ('ref', 'deref', 'try', 'discr', 'index'):
+    if k in ('ref', 'deref', 'try', 'discr', 'index', 'cindex', 'subslice'):
         yield from walk(t[1])
     elif k in ('field', 'downcast'):
         yield from walk(t[1])
@@ -603,6 +607,10 @@ def show(t, depth=0):
         return '(%s as %s)' % (show(t[1], depth), t[2])
     if k == 'index':
         return show(t[1], depth) + '[..]'
+    if k == 'cindex':
+        return '%s[%s%d]' % (show(t[1], depth), '-' if t[3] else '', t[2])
+    if k == 'subslice':
+        return '%s[%d..%s%d]' % (show(t[1], depth), t[2], '-' if t[4] else '', t[3])
     if k == 'cast':
         return '%s as %s' % (show(t[2], depth + 1), t[3])
     if k == 'binop':
@@ -664,6 +672,13 @@ class Facts:
         r = self.find(suffix)
         return r[0] if len(r) == 1 else None
 
+    def impl_method(self, trait, selfty, meth):
+        """body of `meth` in `impl trait for selfty` (either def-path spelling)"""
+        for p, f in self.fns.items():
+            if p.endswith('::' + meth) and trait in p and ((' for %s>' % selfty) in p or p.startswith('<%s as ' % selfty)):
+                return f
+        return None
+
     def closures_of(self, fn):
         pre = fn.path + '::{closure'
         return [f for f in self.fns.values() if f.path.startswith(pre)]
@@ -718,3 +733,31 @@ class Facts:
             seen[f.path] = f
             st.extend(self.callees(f))
         return seen
+
+
+def const_eval(t):
+    """integer value of a constant-foldable term, else None"""
+    t = strip(t)
+    k = t[0]
+    if k == 'const':
+        return t[2] if isinstance(t[2], int) else None
+    if k == 'cast':
+        v = const_eval(t[2])
+        if v is None:
+            return None
+        ty = t[3]
+        w = {'u8': 8, 'u16': 16, 'u32': 32, 'u64': 64, 'usize': 64, 'i32': 32, 'i64': 64}.get(ty)
+        return v & ((1 << w) - 1) if w else v
+    if k == 'field' and t[2] == '0' and t[1][0] == 'binop':
+        return const_eval(t[1])
+    if k == 'binop':
+        a, b = const_eval(t[2]), const_eval(t[3])
+        if a is None or b is None:
+            return None
+        op = t[1].replace('WithOverflow', '').replace('Unchecked', '')
+        try:
+            return {'Add': a + b, 'Sub': a - b, 'Mul': a * b, 'Shl': a << b, 'Shr': a >> b, 'BitAnd': a & b,
+                    'BitOr': a | b, 'Div': a // b if b else None, 'Rem': a % b if b else None}.get(op)
+        except Exception:
+            return None
+    return None
